@@ -154,6 +154,9 @@ def on_grid(sc, coords):
     return False
 
 
+MAGIC_SEEN = [0]
+
+
 def _array(np, rnd, info, coords, enc, layout):
     x0, x1, y0, y1, z0, z1 = coords
     shape = (info["num_channels"], z1 - z0, y1 - y0, x1 - x0)
@@ -179,6 +182,15 @@ def _array(np, rnd, info, coords, enc, layout):
         arr = labs[g.integers(0, len(labs), size=shape)]
     else:
         arr = g.integers(0, np.iinfo(dt).max, size=shape, dtype=dt, endpoint=True)
+    if enc == "raw" and arr.nbytes and rnd.random() < 0.2:
+        # stored bytes that begin like a container format (gzip, zlib, JPEG, a JSON brace):
+        # an uncompressed raw chunk is whatever its voxels are
+        magic = rnd.choice([b"\x1f\x8b\x08\x00", b"\x1f\x8b", b"\x78\x9c", b"\xff\xd8\xff\xe0",
+                            b"{\"a\"", b"\x00\x00\x00\x00"])
+        raw = np.ascontiguousarray(arr).view(np.uint8).reshape(-1)
+        raw[:len(magic)] = np.frombuffer(magic, dtype=np.uint8)[:raw.size]
+        arr = raw.view(dt).reshape(shape)
+        MAGIC_SEEN[0] += 1
     if layout == "F":
         arr = np.asfortranarray(arr)
     elif layout == "T":
@@ -306,7 +318,10 @@ def run_case(case):
                 continue
             layout = rnd.choice(["C", "C", "F", "T", "slice", "BE"]) if enc != "jpeg" else \
                 rnd.choice(["C", "C", "F"])
+            m0 = MAGIC_SEEN[0]
             arr = _array(np, rnd, info, coords, enc, layout)
+            obs["chunks_beginning_with_container_magic"] = obs.get(
+                "chunks_beginning_with_container_magic", 0) + MAGIC_SEEN[0] - m0
             if not arr.flags["C_CONTIGUOUS"]:
                 obs["noncontiguous_arrays"] += 1
             if layout == "BE":
@@ -443,4 +458,6 @@ def gates(obs, tier):
         "info_revised_mid_history": obs.get("info_revisions", 0) > 20,
         "chunks_beyond_2_20_voxels": obs.get("chunks_over_2_20_voxels", 0) > 0,
         "big_endian_input_arrays": obs.get("big_endian_arrays", 0) > 50,
+        "raw_chunks_beginning_with_container_magic": obs.get(
+            "chunks_beginning_with_container_magic", 0) > 50,
     }
